@@ -43,12 +43,12 @@ func (f *Func) Root() *Func {
 }
 
 type index struct {
-	funcs   map[string]*Func // by QName
-	byObj   map[*types.Func]*Func
-	byLit   map[*ast.FuncLit]*Func
-	all     []*Func
-	pkgOf   map[*ast.File]*Pkg
-	fileOf  map[string]*ast.File
+	funcs  map[string]*Func // by QName
+	byObj  map[*types.Func]*Func
+	byLit  map[*ast.FuncLit]*Func
+	all    []*Func
+	pkgOf  map[*ast.File]*Pkg
+	fileOf map[string]*ast.File
 }
 
 func recvName(fd *ast.FuncDecl) string {
